@@ -51,7 +51,7 @@ class Site(object):
     def respond(self, host, port, path, n_hit):
         """Return (cls, bytes)."""
         if path == '/robots.txt':
-            r = self.robots.get(host, {'kind': 'missing'})
+            r = self.robots.get(host if port == 80 else '%s:%d' % (host, port), {'kind': 'missing'})
             k = r['kind']
             if k == 'rules':
                 body = 'User-agent: %s\n' % r.get('agent', '*')
@@ -80,12 +80,22 @@ class Site(object):
             kind = d['kind']
         if kind == 'page':
             parts = ['<html><head>']
+            late = d.get('nofollow_late')
+            if late:
+                # the followable links come first, as <link rel="next">, and only then the declaration
+                for l in d.get('links', []):
+                    if not l.get('inline'):
+                        parts.append('<link rel="next" href="%s">' % (l.get('spelling') or self.url_text(l['to'])))
             if d.get('nofollow'):
                 parts.append('<meta name="robots" content="nofollow">')
             parts.append('<title>t</title></head><body>')
             for l in d.get('links', []):
                 href = l.get('spelling') or self.url_text(l['to'])
-                if l.get('inline'):
+                if late and not l.get('inline'):
+                    continue
+                if l.get('frame'):
+                    parts.append('<iframe src="%s"></iframe>' % href)
+                elif l.get('inline'):
                     parts.append('<img src="%s">' % href)
                 else:
                     parts.append('<a href="%s">x</a>' % href)
@@ -159,6 +169,7 @@ class CrawlRun(object):
         self.answer_log = []
         self.task_item = {}
         self.max_requests = 400
+        self.split_answers = False
 
     # ---- logging and crash points
     def log(self, **kw):
@@ -192,12 +203,15 @@ class CrawlRun(object):
         u = d['id'] if d is not None else 0
         self.pending.append((self.nreq, ep, u, host, port, path, kind))
         item = self.task_item.get(asyncio.current_task(), 0)
-        self.log(e='req', n=self.nreq, u=u, kind=kind, host=host or '', h=self.hidx(host), port=port, path=path,
+        self.log(e='req', n=self.nreq, u=u, kind=kind, host=host or '', h=self.hidx(host, port), port=port, path=path,
                  conn_host=self.ip_host(ep.address[0]), item=item)
 
-    def hidx(self, host):
-        names = sorted(self.site.hosts)
-        return names.index(host) + 1 if host in names else 0
+    def hidx(self, host, port=80):
+        """Index of the origin (host name + port) among the site's origins (0 = unknown)."""
+        labels = sorted(set(u['host'] if u.get('port', 80) == 80 else '%s:%d' % (u['host'], u['port'])
+                            for u in self.site.desc['urls']))
+        lab = host if port == 80 else '%s:%d' % (host, port)
+        return labels.index(lab) + 1 if lab in labels else 0
 
     def ip_host(self, ip):
         for h, i in self.site.hosts.items():
@@ -206,17 +220,28 @@ class CrawlRun(object):
         return ip
 
     def answer(self, idx):
+        if self.pending[idx][6] == 'body':      # second half of a split answer
+            n, ep, u, host, port, path, kind, rest = self.pending.pop(idx)
+            self.log(e='respbody', n=n, u=u)
+            ep.send(rest)
+            return
         n, ep, u, host, port, path, kind = self.pending.pop(idx)
         key = (host, port, path)
         hit = self.site.hits.get(key, 0)
         self.site.hits[key] = hit + 1
         cls, data = self.site.respond(host, port, path, hit)
         self.answer_log.append(n)
-        self.log(e='resp', n=n, u=u, cls=cls, h=self.hidx(host))
+        self.log(e='resp', n=n, u=u, cls=cls, h=self.hidx(host, port))
         if data is None:
             ep.close()
         else:
             d = self.site.lookup(host, port, path) or {}
+            if self.split_answers and b'\r\n\r\n' in data and not data.endswith(b'\r\n\r\n'):
+                # the head now, the body as a separate environment event (lets other answers come in between)
+                head, body = data.split(b'\r\n\r\n', 1)
+                ep.send(head + b'\r\n\r\n')
+                self.pending.append((n, ep, u, host, port, path, 'body', body))
+                return
             ep.send(data, cuts=d.get('cuts'))
             if d.get('close'):
                 ep.close()
@@ -259,6 +284,14 @@ class CrawlRun(object):
                 fakenet.FakeResolver.__init__(self, net, *a, **kw)
 
         class TracingTable(SQLiteURLTable):
+            def __init__(self, *a, **kw):
+                SQLiteURLTable.__init__(self, *a, **kw)
+                import sqlalchemy.event
+                # every COMMIT is an event of its own (and thereby a crash point): a change that splits one
+                # logical operation into several transactions shows up as additional commits
+                sqlalchemy.event.listen(self._session_maker_instance, 'after_commit',
+                                        lambda session: run.log(e='commit'))
+
             def add_many(self, new_urls):
                 new_urls = tuple(new_urls)
                 res = SQLiteURLTable.add_many(self, new_urls)
